@@ -158,6 +158,43 @@ theorem ER_begin_end_tie (r : ElemRange) : ER_begin_aux r = r.begin' ∧ ER_end_
   · simp only [ER_end_aux, ElemRange.end']
     cases ElemRange.mkIt r r.lay.numElements <;> simp
 
+/-! ### cursors -/
+
+/-- `cursor_t::operator[]` for every D ≥ 1 and `home_aux_()` -/
+theorem cursor_is_the_code (b : Int) (s0 : Int) (ss : List Int) (n : Int) (v : View) :
+    CU_index ⟨b, s0 :: ss⟩ n = Cursor.index ⟨b, s0 :: ss⟩ n ∧ V_home_aux v = v.home := by
+  refine ⟨?_, rfl⟩
+  cases ss with
+  | nil => simp [CU_index, Cursor.index]
+  | cons s1 ss => simp [CU_index, Cursor.index]; omega
+
+/-- the model's closed form of cursor indexing (`View.cursorAddr`, used by `C01.paths_agree`) is what repeated
+    `cursor_t::operator[]` from `home()` computes -/
+theorem cursorAddr_is_home_indexing (v : View) (idx : List Int) (h : idx.length = v.lay.length) :
+    v.cursorAddr idx = (v.home.indexAll idx).base := by
+  have gen : ∀ (ss : List Int) (idx : List Int) (b : Int), idx.length = ss.length →
+      ((Cursor.mk b ss).indexAll idx).base = b + ((ss.zip idx).map fun (p : Int × Int) => p.1 * p.2).foldl (· + ·) 0 := by
+    intro ss
+    induction ss with
+    | nil => intro idx b hl; cases idx <;> simp_all [Cursor.indexAll]
+    | cons s ss ih =>
+      intro idx b hl
+      cases idx with
+      | nil => simp at hl
+      | cons i idx =>
+        have := ih idx (b + s * i) (by simpa using hl)
+        simp only [Cursor.indexAll, List.foldl_cons, Cursor.index, List.headD_cons, List.tail_cons] at this ⊢
+        rw [this]
+        simp only [List.zip_cons_cons, List.map_cons, List.foldl_cons]
+        have fold_shift : ∀ (l : List Int) (a : Int), l.foldl (· + ·) a = a + l.foldl (· + ·) 0 := by
+          intro l
+          induction l with
+          | nil => intro a; simp
+          | cons x l ihl => intro a; simp only [List.foldl_cons]; rw [ihl (a + x), ihl (0 + x)]; omega
+        rw [fold_shift _ (0 + s * i)]; omega
+  unfold View.cursorAddr View.home
+  rw [gen v.strides idx v.base (by simpa [View.strides, Layout.strides] using h)]
+
 /-! ### summaries (the names the checks audit) -/
 
 theorem counter_functions_are_the_code (e e1 : Ext) (es : List Ext) (i n : Int) (rest : List Int) :
